@@ -848,3 +848,108 @@ def role_defects(ctx, rid: str) -> None:
     for v in VIEWS:
         for kind, f_, msg in roles(ctx, v).defects:
             ctx.c.ob(rid, False, f_, f"{v}:{kind}", msg, f_.node)
+
+
+def background_tasks_owned(ctx, rid: str, only_funcs=None) -> None:
+    """Every asyncio task the async engine creates is reachable by teardown: its handle is the run-loop task attribute or
+    is handed to ``self.task_manager.add(owner, task)`` on every path that follows the creation.  State-owned work
+    (timers, invoked services: functions that receive an ``owner_id``) must be registered under that owner, so that
+    leaving the state cancels exactly it."""
+    c = ctx.c
+    n = 0
+    for f in ctx.p.funcs_in("interpreter"):
+        if only_funcs and f.name not in only_funcs:
+            continue
+        g = None
+        for x in own_nodes(f.node):
+            if not (isinstance(x, ast.Call) and norm(x.func) in ("asyncio.create_task", "asyncio.ensure_future", "loop.create_task")):
+                continue
+            n += 1
+            par = parents(f).get(id(x))
+            if isinstance(par, ast.Assign) and isinstance(par.targets[0], ast.Attribute) and dotted(par.targets[0].value) == "self":
+                c.ob(rid, True, f, f"task-owned:{par.targets[0].attr}", f"the task handle is kept in self.{par.targets[0].attr}", x)
+                continue
+            var = par.targets[0].id if isinstance(par, ast.Assign) and isinstance(par.targets[0], ast.Name) else None
+            adds = [y for y in own_nodes(f.node) if isinstance(y, ast.Call) and norm(y.func) == "self.task_manager.add" and
+                    var is not None and any(isinstance(a, ast.Name) and a.id == var for a in y.args)]
+            g = g or cfg_of(f.node)
+            cn = cfg_node_of(f, x)
+            an = [i for y in adds for i in cfg_node_of(f, y)]
+            ok = bool(an) and all(g.always_after(i, an, [g.exit], follow_exc=False) for i in cn)
+            owner_ok = True
+            if ok and "owner_id" in f.params:
+                owner_ok = all(y.args and norm(y.args[0]) == "owner_id" for y in adds)
+            c.ob(rid, ok and owner_ok, f, f"task-owned:{var or 'anonymous'}#{n}",
+                 "the task is registered with the task manager (under its owning state)" if ok and owner_ok else
+                 (f"'{stmt_text(x)}' creates a background task that is not registered with self.task_manager on every path: neither leaving the "
+                  f"owning state nor stop() can cancel it (a service result / timer of an exited state is still delivered, the task outlives stop())"
+                  if not ok else
+                  f"the task created by '{stmt_text(x)}' is registered under '{norm(adds[0].args[0]) if adds and adds[0].args else '?'}' instead of the "
+                  f"owner_id it was started for: exiting that state does not cancel it"), x)
+    c.expect(rid, "background task creation sites in the async engine", n, len(only_funcs) if only_funcs else 4, ctx.p.method("Interpreter", "_after_timer"))
+
+
+def exit_set_scope(ctx, rid: str) -> None:
+    """Frame clause of C03 (also C01): states outside the domain's subtree - and, when the domain is a parallel state,
+    outside the region that contains the target - are not exited.  Decided as a postcondition argument over
+    ``_compute_states_to_exit``:
+      * the base set is {s in active | descendant(s, domain), s is not domain};
+      * under ``domain.type == 'parallel'`` a walk starts at the target and follows ``.parent``; when its loop falls
+        through, ``walker.parent is domain`` (or the walker is None) - nothing else may end it;
+      * the set is then narrowed to {s | s is walker or descendant(s, walker)} - a disjunction, never a conjunction."""
+    from sa.util import canon_atom, loop_exit_atoms, atom_is_type_test
+    c, p = ctx.c, ctx.p
+    f = p.method("BaseInterpreter", "_compute_states_to_exit")
+    for v in VIEWS:
+        if p.method(v, "_compute_states_to_exit").qualname != f.qualname:
+            c.ob(rid, False, p.method(v, "_compute_states_to_exit"), "exit-set-overridden", f"{v} overrides _compute_states_to_exit; rule must be re-derived", f.node)
+    dom = f.params[1] if len(f.params) > 1 else "domain"
+    tgt = f.params[2] if len(f.params) > 2 else "target_state"
+    comps = [x for x in own_nodes(f.node) if isinstance(x, ast.SetComp)]
+    base = [x for x in comps if "_active_state_nodes" in norm(x.generators[0].iter)]
+    if c.expect(rid, "base exit set over the active configuration", len(base), 1, f, "the exit set is no longer computed from the active configuration"):
+        b = base[0]
+        var = norm(b.generators[0].target)
+        atoms = [canon_atom(a) for cnd in b.generators[0].ifs for a, _ in split_atoms(cnd, True)] if b.generators[0].ifs else []
+        raw = [a for cnd in b.generators[0].ifs for a, pol in split_atoms(cnd, True)]
+        has_desc = any(isinstance(a, ast.Call) and norm(a.func).endswith("_is_descendant") and [norm(z) for z in a.args] == [var, dom] for a in raw)
+        not_dom = ("is", *sorted([var, dom]), False) in atoms
+        c.ob(rid, has_desc and not_dom, f, "base-set:descendants-of-domain-except-domain",
+             "the exit set starts from the active proper descendants of the domain" if has_desc and not_dom else
+             f"the base exit set is not 'active states that are descendants of the domain, the domain itself excluded' (descendant test: {has_desc}, "
+             f"domain excluded: {not_dom}): states outside the transition's subtree are exited, or the domain itself is", b)
+    par = [x for x in own_nodes(f.node) if isinstance(x, ast.If) and any(atom_is_type_test((a, pol), "parallel") is True for a, pol in split_atoms(x.test, True))]
+    if not c.expect(rid, "parallel-domain branch", len(par), 1, f,
+                    "the exit set is no longer narrowed when the domain is a parallel state: a transition inside one region exits every sibling region, "
+                    "which is never re-entered"):
+        return
+    pi = par[0]
+    loops = [x for st in pi.body for x in ast.walk(st) if isinstance(x, ast.While)]
+    if not c.expect(rid, "walk from the target up to the domain's child", len(loops), 1, f,
+                    "the parallel-domain branch no longer walks from the target up to the child of the domain that contains it", pi):
+        return
+    lp = loops[0]
+    steps = [x for x in lp.body if isinstance(x, ast.Assign) and isinstance(x.targets[0], ast.Name) and norm(x.value) == f"{x.targets[0].id}.parent"]
+    w = steps[0].targets[0].id if steps else None
+    init = [a for a in assignments_to(f, w) if getattr(a, "value", None) is not None and norm(a.value) == tgt] if w else []
+    mode, ex = loop_exit_atoms(lp.test)
+    want = ("is", *sorted([f"{w}.parent", dom]), True)
+    allowed = {want, ("is", *sorted([w or "?", "None"]), True)}
+    ok = bool(w) and bool(init) and want in ex and set(ex) <= allowed and (mode == "any" or len(ex) == 1)
+    c.ob(rid, ok, f, "region-walk-postcondition", f"when the walk ends, {w}.parent is the domain: {w} is the region that contains the target" if ok else
+         f"the walk 'while {norm(lp.test)}' does not establish '{w}.parent is {dom}' when it ends (it ends when one of {ex} holds; it must start at "
+         f"the target and end only at the domain's child): the exit set is narrowed to the wrong subtree - e.g. to the target's own subtree, so the "
+         f"source state in the same region stays active next to the target", lp)
+    narrowed = [x for st in pi.body for x in ast.walk(st) if isinstance(x, ast.SetComp)]
+    if c.expect(rid, "narrowing of the exit set to the target's region", len(narrowed), 1, f, "the exit set is no longer narrowed to the region", pi) and w:
+        nc = narrowed[0]
+        sv = norm(nc.generators[0].target)
+        conds = nc.generators[0].ifs
+        cond = conds[0] if len(conds) == 1 else None
+        parts = cond.values if isinstance(cond, ast.BoolOp) and isinstance(cond.op, ast.Or) else ([cond] if cond is not None and not isinstance(cond, ast.BoolOp) else [])
+        has_desc = any(isinstance(a, ast.Call) and norm(a.func).endswith("_is_descendant") and [norm(z) for z in a.args] == [sv, w] for a in parts)
+        extra = [a for a in parts if not (isinstance(a, ast.Call) and norm(a.func).endswith("_is_descendant")) and canon_atom(a) != ("is", *sorted([sv, w]), True)]
+        ok = has_desc and not extra
+        c.ob(rid, ok, f, "region-filter", f"narrowed to the states that are {w} or below it" if ok else
+             f"the narrowing condition '{norm(cond) if cond is not None else conds}' is not 'descendant of {w} (or {w} itself)': active states inside the "
+             f"target's region stay active after the transition (two active children in one region), or states of sibling regions are exited", nc)
